@@ -55,4 +55,34 @@ REG = {
          "enumerated abstract domains are not decided. Rows where the statement leaves the outcome open (two-point axes of the 2D "
          "table, cdf in {0,1} for Inv_CDF_Poisson, Inv_Erf(1), envelope exceeded by <1%) accept either outcome but never a memory error.",
     technique="TLA+ decision-table specification enumerated by TLC; every request executed in a child process and its outcome trace-validated"),
+ "C01": dict(
+    engine="spec/Steffen.tla, MC_Steffen.tla, Bilinear.tla, MC_Bilinear.tla, Trace_Interp.tla, Rat.tla; harness/interp.cpp",
+    design_ref="DESIGN.md §4.1",
+    text="Steffen.tla transcribes Compute_Steffen_Coefficients / Interpolate / Derivative in exact rational arithmetic; TLC proves on "
+         "every table of the lattice (all tables with <=4 knots, quick, <=5 thorough, spacings {1,2,3}, ordinates -2..2, plus non-uniform "
+         "parabola tables where the limiter is inactive) that knots are reproduced, every piece is monotone (derivative quadratic checked "
+         "at both ends and its vertex), the curve is C1, lines and unlimited parabola pieces are exact; Bilinear.tla does the same for "
+         "every 2D cell. Every lattice table/cell is exported with exact values and replayed through both constructors, unit factors and "
+         "power-of-two rescalings of either axis by 2^+-66 (bit-identical outputs required). Random real-valued tables from the "
+         "property's quantifier are observed interval by interval and cell by cell and validated against Trace_Interp, whose state "
+         "machine also requires that every interval of every table was observed.",
+    note="Exact on the lattice; on real-valued tables monotonicity/bounds are observed at 66 points per interval (incl. nextafter "
+         "neighbours of the knots), derivative consistency through a cubic reconstructed from four samples. Agreement with Steffen's "
+         "particular slopes where the limiter is active is reported as model drift only. Trusted: TLC, the recorder's quantisation.",
+    technique="exact-rational TLA+ transcription of the Steffen construction (TLC exhaustive on a table lattice) + replay of exported tables + trace validation of recorded per-interval observations"),
+ "C08": dict(
+    engine="spec/Steffen.tla, MC_Spline.tla (2 cfgs), MC_Steffen.tla, Trace_Spline.tla; harness/interp.cpp",
+    design_ref="DESIGN.md §4.8",
+    text="MC_Spline models Integrate as the code computes it (sum of per-piece antiderivative differences with partial end pieces) and "
+         "the extrema as end values plus tabulated points in range times the prefactor; TLC proves on the exact model that this equals "
+         "the cumulative integral (hence additivity and antisymmetry), that no lattice evaluation leaves the reported extrema, that the "
+         "integral is bounded by extrema x length, for every lattice table, limit pair and prefactor reachable by Set_Prefactor/Multiply "
+         "histories. Integrals and extrema between all knot pairs under seven prefactors are replayed against exact values; recorded "
+         "histories on real-valued tables are validated against Trace_Spline, which tracks the prefactor and demands exact scaling, "
+         "additivity, exact antisymmetry, agreement with an exact per-piece quadrature of Interpolate's own values, and attained, "
+         "never-exceeded extrema (min/max exchanged under negative prefactors).",
+    note="Rounding allowance for integrals: 2048 eps x |prefactor| x max|ordinate| x total width of the pieces touched. Extrema are "
+         "queried inside the tabulated domain only (the 1% extrapolation zone is not covered for extrema). Prefactors in recorded "
+         "histories are +-2^k; subnormal results are exempt from the exact-scaling clause.",
+    technique="exact-rational TLA+ model of the piecewise antiderivative and extrema with a prefactor state machine (TLC) + replay + trace validation of recorded histories"),
 }
